@@ -134,7 +134,8 @@ def _extint_cases(draw, tier):
                 pe=draw(loguniform(-3, 3)), variant=variant,
                 # the SAME BD object and the SAME channel object were used
                 # before with another channel realisation
-                reuse=draw(st.sampled_from([None, None, "init", "randomize"])))
+                reuse=draw(st.sampled_from([None, None, "init", "randomize"])),
+                abs_exp=draw(st.sampled_from([0, 0, 0, -14, -12, -9, -6])))
     if variant == "enhanced":
         metric = draw(st.sampled_from(_METRICS + ["fixed", "capacity"]))
         case["metric"] = metric
@@ -142,6 +143,8 @@ def _extint_cases(draw, tier):
             case["num_streams"] = draw(st.integers(1, N))
             case["cfg_dict_reused"] = draw(st.sampled_from(
                 [None, None] + [x for x in range(1, N + 1)]))
+        case["union_dict"] = draw(st.sampled_from([False, False, True]))
+        case["unconfigured"] = draw(st.booleans())
         case["prev_metric"] = draw(st.sampled_from(
             [None, None, None, "capacity", "effective_throughput", "naive",
              "fixed", "None"]))
@@ -371,6 +374,12 @@ def _check_extint(case, ctx):
     K, N = case["K"], case["N"]
     n = K * N
     iPu, noise, pe = float(case["iPu"]), float(case["noise"]), float(case["pe"])
+    ge = int(case.get("abs_exp", 0))
+    if ge:
+        # noise and external interference in Watts: one common factor (the
+        # relations judged here are relative)
+        noise, pe = noise * 10.0 ** ge, pe * 10.0 ** ge
+        ctx.label("noise_and_pe_scaled_1e%d" % ge)
     ext = case["ext"]
     r_tot = int(np.sum(ext))
     variant = case["variant"]
@@ -401,7 +410,9 @@ def _check_extint(case, ctx):
         obj = bdm.WhiteningBD(K, a, b, c)
     else:
         obj = bdm.EnhancedBD(K, a, b, c)
-    if reassigned:
+    late = reassigned and bool(case.get("reuse")) and \
+        case["chan"]["seed"] % 2 == 0
+    if reassigned and not late:
         # a power / noise sweep on one object: public attributes assigned
         ctx.label("attributes_reassigned")
         obj.iPu = iPu
@@ -423,6 +434,15 @@ def _check_extint(case, ctx):
                 obj.set_ext_int_handling_metric(prev)
         if metric in ("naive", "fixed"):
             cfg_dict = {"num_streams": int(case["num_streams"])}
+            if case["chan"]["seed"] % 5 == 1:
+                # a stream count taken from an integer array
+                cfg_dict["num_streams"] = np.int64(case["num_streams"])
+                ctx.label("num_streams_numpy_int")
+            if case.get("union_dict"):
+                # one settings dictionary for a sweep over the metrics
+                cfg_dict.update(modulator=_modulator(["QPSK", 4]),
+                                packet_length=60)
+                ctx.label("settings_dict_with_extra_keys")
             obj.set_ext_int_handling_metric(metric, cfg_dict)
             if case.get("cfg_dict_reused"):
                 # the caller prepares the same dictionary for its next
@@ -431,12 +451,28 @@ def _check_extint(case, ctx):
                 ctx.label("config_dict_reused")
                 cfg_dict["num_streams"] = int(case["cfg_dict_reused"])
         elif metric == "effective_throughput":
-            obj.set_ext_int_handling_metric(
-                metric, {"modulator": _modulator(case["mod"]),
-                         "packet_length": int(case["packet_length"])})
+            et_dict = {"modulator": _modulator(case["mod"]),
+                       "packet_length": int(case["packet_length"])}
+            if case.get("union_dict"):
+                et_dict["num_streams"] = 1
+                ctx.label("settings_dict_with_extra_keys")
+            obj.set_ext_int_handling_metric(metric, et_dict)
             ctx.label("mod=%s%d" % tuple(case["mod"]))
+        elif metric is None and prev is None and case.get("unconfigured"):
+            # a default-constructed object: no metric was ever set
+            ctx.label("metric_never_configured")
+        elif case.get("union_dict"):
+            # documented: the dictionary is ignored by the other metrics
+            ctx.label("settings_dict_with_extra_keys")
+            obj.set_ext_int_handling_metric(
+                metric, {"num_streams": 1, "packet_length": 60,
+                         "modulator": _modulator(["QPSK", 4])})
         else:
             obj.set_ext_int_handling_metric(metric)
+        if obj.metric_name != mname:
+            raise Violation("metric_name", "metric_name is %r after "
+                            "configuring %r" % (obj.metric_name, metric),
+                            tags)
     if case.get("reuse"):
         # history: both objects already served another channel realisation;
         # the result for the CURRENT channel must not depend on that
@@ -451,6 +487,12 @@ def _check_extint(case, ctx):
         with np.errstate(all="ignore"):
             obj.block_diagonalize_no_waterfilling(mu)
         mu.init_from_channel_matrix(big.copy(), Nr, Nt, K, ext_arg)
+        if late:
+            # ... and the sweep assigns the attributes between two runs
+            ctx.label("attributes_reassigned_between_runs")
+            obj.iPu = iPu
+            obj.noise_var = noise
+            obj.pe = pe
     with np.errstate(all="ignore"):
         Ms_all, W_all, Ns_all = obj.block_diagonalize_no_waterfilling(mu)
 
